@@ -268,6 +268,18 @@ func Run(tier string) int {
 	}
 	deadline := time.Now().Add(budget)
 	cases, rule := EnumCases(tier)
+	only := os.Getenv("VERIF_C05_ONLY")
+	if only != "" {
+		// debugging aid: restrict to conversation sets whose name starts with the value
+		var f []ImportCase
+		for _, c := range cases {
+			if strings.HasPrefix(c.Case.Set, only) {
+				f = append(f, c)
+			}
+		}
+		cases = f
+		rule = "RESTRICTED to sets " + only + "*: " + rule
+	}
 	// cheap cases first is not needed; keep enumeration order (deterministic)
 	var evals, nontrivial, imports, clean int64
 	var timedOut int32
@@ -347,7 +359,7 @@ func Run(tier string) int {
 		"a 4-tuple is reused only after the earlier connection was closed by FIN from both sides (sets reuse-slow: 6 minutes later, reuse-fast: 90 s later); idle periods inside a conversation are 4 minutes at most",
 		"capture files are named in chronological order (equal timestamps across files are ordered by file name)",
 	}
-	if len(outcomes) < 5 && timedOut == 0 {
+	if len(outcomes) < 5 && timedOut == 0 && only == "" {
 		mc.Fatal("vacuous: %d outcomes", len(outcomes))
 	}
 	return rep.Finish()
